@@ -649,18 +649,878 @@ Section Spec.
           + destruct (IH _ _ _ _ _ _ Hx Es) as (Hcx & Hmx & Htx & Hfx).
             split; [eapply sinv_mono; eauto|]. split; [exact Hmx|]. split.
             * intros Hb _. exists cu. split; [reflexivity|auto].
-            * intros Hb Hq. destruct (Hq eq_refl) as (cu' & Ecu' & HF'). inversion Ecu'; subst. apply (Hfx Hb HF').
-          + inversion Es; subst. split; [exact Hx|]. split; [apply mono_refl|]. split; [discriminate|].
+            * intros Hb Hq. destruct (Hq eq_refl) as (cu' & Ecu' & HF'). assert (cu' = cu) by congruence. subst cu'. apply (Hfx Hb HF').
+          + inversion Es; subst. split; [apply sinv_add_issue; exact Hx|].
+            split; [apply mono_same_lib; reflexivity|]. split; [discriminate|].
             intros _ Hq. destruct (Hq eq_refl) as (cu' & Ecu' & _). discriminate. }
       destruct Hall as (Hinv' & Hm' & Ht' & Hf').
       destruct Hinv' as (Hc' & _).
       repeat split; auto.
       + eapply mono_trans; [exact Hm1|]. eapply mono_trans; eauto.
       + intros Hb. econstructor; eauto.
-        intros r Hr Hs. apply (Ht' Hb r Hr Hs).
-      + intros Hb HF. inversion HF; subst. assert (sm0 = sm) by congruence. subst sm0.
+        * intros r Hr Hs. destruct (Ht' Hb r Hr Hs) as (cu & Ecu & _). congruence.
+        * intros r cu Hr Hs Ecu. destruct (Ht' Hb r Hr Hs) as (cu' & Ecu' & HF'). assert (cu' = cu) by congruence. subst cu'. exact HF'.
+      + intros Hb HF. destruct (Hf' Hb) as (r & Hr & Hq). clear Hf' Ht' Hb.
+        inversion HF as [|? ? ? ? ? ? sm0 su0 H1 H2 H3 H4 Hex Hall]; subst.
+        assert (sm0 = sm) by congruence. subst sm0.
         assert (su0 = su) by congruence. subst su0.
-        destruct (Hf' Hb) as (r & Hr & Hq). apply Hq. intros Hs.
-        match goal with H : forall r, In r (refs_of su) -> _ |- _ => apply H; [exact Hr|exact Hs] end.
+        apply Hq. intros Hs. specialize (Hex r Hr Hs).
+        destruct (find_units (m_units sm) r) as [cu|] eqn:Ecu; [|congruence].
+        exists cu. split; [reflexivity|]. eapply Hall; eauto.
+  Qed.
+
+  Lemma FC_local_inv : forall o hist n used kids,
+    requires_imports (Comp n None used kids) = true -> FC fs m0 o hist (Comp n None used kids) ->
+    forall k, In k kids -> FC fs m0 o hist k.
+  Proof.
+    intros o hist n used kids Hr HF. inversion HF; subst; [congruence|assumption].
+  Qed.
+
+  Lemma walk_comp_spec (P : state -> Prop) (o : owner) (hist : list epoch)
+        (imp : state -> comp -> res (bool * state)) :
+    (forall st c b st', cimp c <> None -> P st -> imp st c = Ok (b, st') ->
+                        P st' /\ mono st st' /\ (b = true -> FC fs m0 o hist c) /\ (b = false -> ~ FC fs m0 o hist c)) ->
+    forall c st b st', P st -> walk_comp imp c st = Ok (b, st') ->
+                       P st' /\ mono st st' /\ (b = true -> FC fs m0 o hist c) /\ (b = false -> ~ FC fs m0 o hist c).
+  Proof.
+    intros Himp c. induction c as [n i used kids IHk] using comp_ind'. intros st b st' Hst E.
+    cbn [walk_comp] in E.
+    destruct (requires_imports (Comp n i used kids)) eqn:Hreq; cbn [negb] in E.
+    2:{ inversion E; subst. repeat split; auto using mono_refl; [|discriminate]. intros _. apply FC_noreq. exact Hreq. }
+    destruct i as [p|].
+    - eapply Himp; eauto. discriminate.
+    - assert (G : P st' /\ mono st st' /\ (b = true -> forall k, In k kids -> FC fs m0 o hist k) /\
+                  (b = false -> exists k, In k kids /\ ~ FC fs m0 o hist k)).
+      { clear Hreq. revert st Hst E. induction kids as [|k r IHr]; intros st Hst E.
+        - inversion E; subst. repeat split; auto using mono_refl; [intros _ k []|discriminate].
+        - inversion IHk as [|k' r' Hk Hr]; subst.
+          destruct (walk_comp imp k st) as [[b1 st1]| |] eqn:E1; try discriminate.
+          destruct (Hk _ _ _ Hst E1) as (H1 & Hm1 & Ht1 & Hf1). destruct b1.
+          + destruct (IHr Hr _ H1 E) as (H2 & Hm2 & Ht2 & Hf2). repeat split; auto.
+            * eapply mono_trans; eauto.
+            * intros Hb k' [->|Hk']; auto.
+            * intros Hb. destruct (Hf2 Hb) as (k' & Hk' & Hn). exists k'. split; [right; exact Hk'|exact Hn].
+          + inversion E; subst. repeat split; auto; [discriminate|]. intros _. exists k. split; [left; reflexivity|auto]. }
+      destruct G as (G1 & G2 & G3 & G4). repeat split; auto.
+      + intros Hb. apply FC_local. auto.
+      + intros Hb HF. destruct (G4 Hb) as (k & Hk & Hn). apply Hn. eapply FC_local_inv; eauto.
+  Qed.
+
+  Lemma fetch_comp_spec : forall fuel st o hist c b st',
+    sinv hist o st -> fetch_comp fuel strict fs m0 st o hist c = Ok (b, st') ->
+    sinv hist o st' /\ mono st st' /\ (b = true -> FC fs m0 o hist c) /\ (b = false -> ~ FC fs m0 o hist c).
+  Proof.
+    induction fuel as [|f IH]; intros st o hist c b st' Hinv E; cbn [fetch_comp] in E; [discriminate|].
+    eapply (walk_comp_spec (sinv hist o)); [|exact Hinv|exact E].
+    clear st c b st' Hinv E. intros st c b st' Himp Hinv E.
+    destruct c as [name [[[sid url] ref]|] used kids]; [|exfalso; apply Himp; reflexivity]. clear Himp.
+    unfold fetch_comp_body in E.
+    destruct Hinv as (Hc & Hh & Ho).
+    destruct (fetch_import_source strict fs st o sid url) as [st1|st1 errs sm] eqn:Efis.
+    - inversion E; subst. destruct (fis_fail _ _ _ _ _ _ _ Efis) as (Hl & _ & Hn & _).
+      split; [repeat split; eauto using cons_same_lib; [eapply hist_ok_mono|eapply owner_ok_mono]; eauto using mono_same_lib|].
+      split; [eauto using mono_same_lib|]. split; [discriminate|].
+      intros _ HF. inversion HF; subst; [discriminate|congruence].
+    - rewrite (fis_errs_nil _ _ _ _ _ _ _ Efis) in E. cbn [existsb] in E.
+      destruct (fis_ok_cons _ _ _ _ _ _ _ _ _ Hc Efis) as (Hc1 & Hm1 & Hfm & Hget & _ & _).
+      assert (Hh1 : hist_ok st1 hist) by (eapply hist_ok_mono; eauto).
+      assert (Ho1 : owner_ok st1 o) by (eapply owner_ok_mono; eauto).
+      assert (Hinv1o : sinv hist o st1) by (repeat split; auto).
+      rewrite (check_cycle_cycs fs st1 m0 hist (fetch_epoch o url) (mk_key url) sm Hc1 Hh1 eq_refl Hget) in E.
+      destruct (cycs fs m0 hist (fetch_epoch o url)) eqn:Ecy.
+      { inversion E; subst. repeat split; auto; try apply Hinv1o; [discriminate|].
+        intros _ HF. inversion HF; subst; [discriminate|congruence]. }
+      destruct (find_comp (m_comps sm) ref) as [sc|] eqn:Efc.
+      2:{ inversion E; subst. repeat split; auto; try apply Hinv1o; [discriminate|].
+          intros _ HF. inversion HF; subst; [discriminate|congruence]. }
+      set (o' := Some (mk_key url)) in *. set (hist' := hist ++ [fetch_epoch o url]) in *.
+      assert (Hinv1 : sinv hist' o' st1).
+      { repeat split; auto.
+        - intros e He. apply in_app_or in He. destruct He as [He|[<-|[]]]; [apply Hh1, He | exact Ho1].
+        - exists sm. exact Hget. }
+      assert (Hback : forall x, cons fs x -> mono st1 x -> sinv hist o x).
+      { intros x Hcx Hmx. eapply sinv_mono; eauto. }
+      destruct (fetch_comp f strict fs m0 st1 o' hist' sc) as [[b2 st2]| |] eqn:E2; try discriminate.
+      destruct (IH _ _ _ _ _ _ Hinv1 E2) as (Hinv2 & Hm2 & Ht2 & Hf2).
+      destruct b2.
+      2:{ inversion E; subst. split; [apply Hback; [apply Hinv2|exact Hm2]|].
+          split; [eauto using mono_trans|]. split; [discriminate|].
+          intros _ HF. inversion HF; subst; [discriminate|]. assert (sm0 = sm) by congruence. subst sm0.
+          assert (sc0 = sc) by congruence. subst sc0. apply (Hf2 eq_refl). assumption. }
+      destruct (all_ok (fun st k => fetch_comp f strict fs m0 st o' hist' k) (ckids sc) st2) as [[b3 st3]| |] eqn:E3;
+        try discriminate.
+      assert (Hall3 : sinv hist' o' st3 /\ mono st2 st3 /\ (b3 = true -> forall k, In k (ckids sc) -> FC fs m0 o' hist' k) /\
+                      (b3 = false -> exists k, In k (ckids sc) /\ ~ FC fs m0 o' hist' k)).
+      { eapply (all_ok_spec (sinv hist' o') (FC fs m0 o' hist')); [|exact Hinv2|exact E3].
+        intros k x b' x' _ Hx Es. cbv beta in Es. eapply IH; eauto. }
+      destruct Hall3 as (Hinv3 & Hm3 & Ht3 & Hf3).
+      destruct b3.
+      2:{ inversion E; subst. split; [apply Hback; [apply Hinv3|eauto using mono_trans]|].
+          split; [eauto using mono_trans|]. split; [discriminate|].
+          intros _ HF. destruct (Hf3 eq_refl) as (k & Hk & Hn). clear Hf3 Ht3.
+          inversion HF; subst; [discriminate|]. assert (sm0 = sm) by congruence. subst sm0.
+          assert (sc0 = sc) by congruence. subst sc0. apply Hn. auto. }
+      set (Q := fun un => is_std un = false ->
+                          exists su, find_units (m_units sm) un = Some su /\ FU fs m0 o' hist' su).
+      assert (Hall : sinv hist' o' st' /\ mono st3 st' /\ (b = true -> forall a, In a (cused sc) -> Q a) /\
+                     (b = false -> exists a, In a (cused sc) /\ ~ Q a)).
+      { eapply (all_ok_spec (sinv hist' o') Q); [|exact Hinv3|exact E].
+        clear E. intros un x b' x' _ Hx Es. cbv beta in Es. unfold Q. destruct (is_std un) eqn:Estd.
+        - inversion Es; subst. repeat split; auto using mono_refl; try apply Hx; discriminate.
+        - destruct (find_units (m_units sm) un) as [su|] eqn:Esu.
+          + destruct (fetch_units_spec f _ _ _ _ _ _ Hx Es) as (Hcx & Hmx & Htx & Hfx).
+            split; [eapply sinv_mono; eauto|]. split; [exact Hmx|]. split.
+            * intros Hb _. exists su. split; [reflexivity|auto].
+            * intros Hb Hq. destruct (Hq eq_refl) as (su' & Esu' & HF'). assert (su' = su) by congruence. subst su'.
+              apply (Hfx Hb HF').
+          + inversion Es; subst. split; [apply sinv_add_issue; exact Hx|].
+            split; [apply mono_same_lib; reflexivity|]. split; [discriminate|].
+            intros _ Hq. destruct (Hq eq_refl) as (su' & Esu' & _). discriminate. }
+      destruct Hall as (Hinv' & Hm' & Ht' & Hf').
+      split; [apply Hback; [apply Hinv'|eauto using mono_trans]|].
+      split; [eauto 6 using mono_trans|]. split.
+      + intros Hb. eapply FC_imp; eauto.
+        * intros un Hun Hs. destruct (Ht' Hb un Hun Hs) as (su & Esu & _). congruence.
+        * intros un su Hun Hs Esu. destruct (Ht' Hb un Hun Hs) as (su' & Esu' & HF'). assert (su' = su) by congruence. subst su'. exact HF'.
+      + intros Hb HF. destruct (Hf' Hb) as (un & Hun & Hq). clear Hf' Ht' Hb.
+        inversion HF as [| |? ? ? ? ? ? ? ? sm0 sc0 H1 H2 H3 H4 H5 Hex Hall]; subst; [discriminate|].
+        assert (sm0 = sm) by congruence. subst sm0.
+        assert (sc0 = sc) by congruence. subst sc0.
+        apply Hq. intros Hs. specialize (Hex un Hun Hs).
+        destruct (find_units (m_units sm) un) as [su|] eqn:Esu; [|congruence].
+        exists su. split; [reflexivity|]. eapply Hall; eauto.
   Qed.
 End Spec.
+
+Lemma resolve_loop_spec {A : Type} (P : state -> Prop) (Q : A -> Prop)
+      (fetch : state -> A -> res (bool * state)) (item : A -> iitem) :
+  (forall st it, P st -> P (retarget_last st it)) ->
+  forall l,
+  (forall st a b st', In a l -> P st -> fetch st a = Ok (b, st') ->
+                      P st' /\ (b = true -> Q a) /\ (b = false -> ~ Q a)) ->
+  forall acc st b st', P st -> resolve_loop fetch item l acc st = Ok (b, st') ->
+    P st' /\ (b = true -> acc = true /\ forall a, In a l -> Q a) /\
+    (b = false -> acc = false \/ exists a, In a l /\ ~ Q a).
+Proof.
+  intros Hrt. induction l as [|a r IH]; intros Hf acc st b st' Hst E; cbn [resolve_loop] in E.
+  - inversion E; subst. repeat split; auto. intros x [].
+  - destruct (fetch st a) as [[b1 st1]| |] eqn:E1; try discriminate.
+    destruct (Hf _ _ _ _ (or_introl eq_refl) Hst E1) as (H1 & Ht1 & Hf1).
+    assert (Hf' : forall st a b st', In a r -> P st -> fetch st a = Ok (b, st') ->
+                                     P st' /\ (b = true -> Q a) /\ (b = false -> ~ Q a)).
+    { intros s a' b' s' Ha'. apply Hf. right. exact Ha'. }
+    destruct b1.
+    + destruct (IH Hf' _ _ _ _ H1 E) as (H2 & Ht2 & Hf2). split; [exact H2|]. split.
+      * intros Hb. destruct (Ht2 Hb) as [Hacc Hall]. split; [exact Hacc|].
+        intros a' [<-|Ha']; [apply Ht1; reflexivity | apply Hall; exact Ha'].
+      * intros Hb. destruct (Hf2 Hb) as [Hacc|(a' & Ha' & Hn)]; [left; exact Hacc|].
+        right. exists a'. split; [right; exact Ha'|exact Hn].
+    + destruct (IH Hf' _ _ _ _ (Hrt _ _ H1) E) as (H2 & Ht2 & Hf2). split; [exact H2|]. split.
+      * intros Hb. destruct (Ht2 Hb) as [Habs _]. discriminate.
+      * intros _. right. exists a. split; [left; reflexivity|apply Hf1; reflexivity].
+Qed.
+
+(* Theorem A: on an importer whose library caches (part of) the file system -- in particular a fresh one, or one
+   after removeAllModels -- and when no file carries parser errors, resolveImports answers true exactly when the
+   importer's own demands (ImportSpec.CodeResolvable) are met by the file system *)
+Lemma resolve_code_spec : forall fs, NoErrs fs -> forall fuel strict st m0 b st',
+  cons fs st ->
+  resolve_imports fuel strict fs st m0 = Ok (b, st') ->
+  (b = true <-> CodeResolvable fs m0).
+Proof.
+  intros fs Hne fuel strict st m0 b st' Hc E. unfold resolve_imports in E.
+  set (P := sinv fs [] None).
+  assert (HP0 : P (clear_origin_links (clear_issues st))).
+  { repeat split; auto. intros e []. }
+  assert (Hrt : forall s it, P s -> P (retarget_last s it)).
+  { intros s it Hs. unfold retarget_last. destruct (issues_rev s); exact Hs. }
+  destruct (resolve_loop (fun st u => fetch_units fuel strict fs m0 st None [] u) (fun u => ItUnits None (uname u))
+                         (imported_units m0) true (clear_origin_links (clear_issues st)))
+    as [[b1 st1]| |] eqn:E1; try discriminate.
+  assert (Hsu : forall s u b' s', In u (imported_units m0) -> P s ->
+                  fetch_units fuel strict fs m0 s None [] u = Ok (b', s') ->
+                  P s' /\ (b' = true -> FU fs m0 None [] u) /\ (b' = false -> ~ FU fs m0 None [] u)).
+  { intros s u b' s' _ Hs Es. destruct (fetch_units_spec fs strict m0 Hne fuel _ _ _ _ _ _ Hs Es) as (Hc' & Hm' & Ht & Hf).
+    split; [eapply sinv_mono; eauto|]. auto. }
+  assert (Hsc : forall s c b' s', In c (imported_comps m0) -> P s ->
+                  fetch_comp fuel strict fs m0 s None [] c = Ok (b', s') ->
+                  P s' /\ (b' = true -> FC fs m0 None [] c) /\ (b' = false -> ~ FC fs m0 None [] c)).
+  { intros s c b' s' _ Hs Es. destruct (fetch_comp_spec fs strict m0 Hne fuel _ _ _ _ _ _ Hs Es) as (Hs' & _ & Ht & Hf).
+    auto. }
+  destruct (resolve_loop_spec P (FU fs m0 None []) _ _ Hrt _ Hsu _ _ _ _ HP0 E1) as (HP1 & Ht1 & Hf1).
+  destruct (resolve_loop_spec P (FC fs m0 None []) _ _ Hrt _ Hsc _ _ _ _ HP1 E) as (HP2 & Ht2 & Hf2).
+  split.
+  - intros Hb. destruct (Ht2 Hb) as (Hb1 & Hcs). destruct (Ht1 Hb1) as (_ & Hus). split; assumption.
+  - intros (Hus & Hcs). destruct b; [reflexivity|]. exfalso.
+    destruct (Hf2 eq_refl) as [Hb1|(c & Hc' & Hn)]; [|apply Hn, Hcs, Hc'].
+    destruct (Hf1 Hb1) as [Habs|(u & Hu & Hn)]; [discriminate|apply Hn, Hus, Hu].
+Qed.
+
+(* ------------------------------------------------------------------------------------------ membership lemmas *)
+
+Lemma find_units_In : forall us n u, find_units us n = Some u -> In u us.
+Proof. intros us n u E. unfold find_units in E. apply find_some in E. apply E. Qed.
+
+Lemma subcomps_self : forall c, In c (subcomps c).
+Proof. intros [n i u k]. cbn. left. reflexivity. Qed.
+
+Lemma subcomps_kids : forall c k, In k (ckids c) -> incl (subcomps k) (subcomps c).
+Proof.
+  intros [n i u kids] k Hk x Hx. cbn [ckids] in Hk. cbn [subcomps]. right.
+  induction kids as [|k' r IH]; [destruct Hk|]. apply in_or_app. destruct Hk as [->|Hk]; [left; exact Hx|right; auto].
+Qed.
+
+Lemma subcomps_trans : forall c d, In d (subcomps c) -> incl (subcomps d) (subcomps c).
+Proof.
+  induction c as [n i u kids IHk] using comp_ind'. intros d Hd. cbn [subcomps] in Hd.
+  destruct Hd as [<-|Hd]; [apply incl_refl|].
+  intros x Hx. cbn [subcomps]. right.
+  induction kids as [|k r IHr]; [destruct Hd|]. inversion IHk as [|k' r' Hk Hr]; subst.
+  apply in_app_or in Hd. apply in_or_app. destruct Hd as [Hd|Hd].
+  - left. eapply Hk; eauto.
+  - right. apply IHr; assumption.
+Qed.
+
+Lemma subcomps_eq : forall n i u kids, subcomps (Comp n i u kids) = Comp n i u kids :: flat_map subcomps kids.
+Proof.
+  intros. reflexivity.
+Qed.
+
+Lemma find_comp_in_sub : forall c n x, find_comp_in c n = Some x -> In x (flat_map subcomps (ckids c)).
+Proof.
+  induction c as [nm i u kids IHk] using comp_ind'. intros n x E. cbn [find_comp_in] in E. cbn [ckids].
+  destruct (find (fun k => String.eqb (cname k) n) kids) as [k|] eqn:Ef.
+  - inversion E; subst. apply find_some in Ef. apply in_flat_map. exists x. split; [apply Ef|apply subcomps_self].
+  - clear Ef. induction kids as [|k r IHr]; [discriminate|]. inversion IHk as [|k' r' Hk Hr]; subst.
+    cbn [flat_map]. apply in_or_app.
+    destruct (find_comp_in k n) as [y|] eqn:Ek.
+    + inversion E; subst. left. destruct k as [kn ki ku kk]. rewrite subcomps_eq. right. apply (Hk _ _ Ek).
+    + right. apply IHr; assumption.
+Qed.
+
+Lemma find_comp_sub : forall cs n x, find_comp cs n = Some x -> In x (flat_map subcomps cs).
+Proof.
+  intros cs n x E. unfold find_comp in E.
+  destruct (find (fun k => String.eqb (cname k) n) cs) as [k|] eqn:Ef.
+  - inversion E; subst. apply find_some in Ef. apply in_flat_map. exists x. split; [apply Ef|apply subcomps_self].
+  - clear Ef. induction cs as [|k r IHr]; [discriminate|]. cbn [flat_map]. apply in_or_app.
+    destruct (find_comp_in k n) as [y|] eqn:Ek.
+    + inversion E; subst. left. destruct k as [kn ki ku kk]. rewrite subcomps_eq. right.
+      apply (find_comp_in_sub _ _ _ Ek).
+    + right. apply IHr. exact E.
+Qed.
+
+(* children of a component of the model are child components of the model, and components of the model *)
+Lemma kids_child_comps : forall m c k, In c (all_comps m) -> In k (ckids c) -> In k (child_comps m) /\ In k (all_comps m).
+Proof.
+  intros m c k Hc Hk. split.
+  - unfold child_comps. apply in_flat_map. exists c. split; [exact Hc|]. apply in_flat_map. exists k.
+    split; [exact Hk|apply subcomps_self].
+  - unfold all_comps in *. apply in_flat_map in Hc. destruct Hc as (t & Ht & Hc). apply in_flat_map. exists t.
+    split; [exact Ht|]. eapply subcomps_trans; [exact Hc|]. eapply subcomps_kids; [exact Hk|apply subcomps_self].
+Qed.
+
+Lemma child_comps_kids : forall m c k, In c (child_comps m) -> In k (ckids c) -> In k (child_comps m).
+Proof.
+  intros m c k Hc Hk. unfold child_comps in *. apply in_flat_map in Hc. destruct Hc as (p & Hp & Hc).
+  apply in_flat_map in Hc. destruct Hc as (q & Hq & Hc). apply in_flat_map. exists p. split; [exact Hp|].
+  apply in_flat_map. exists q. split; [exact Hq|]. eapply subcomps_trans; [exact Hc|].
+  eapply subcomps_kids; [exact Hk|apply subcomps_self].
+Qed.
+
+Lemma child_comps_all : forall m c, In c (child_comps m) -> In c (all_comps m).
+Proof.
+  intros m c Hc. unfold child_comps in Hc. apply in_flat_map in Hc. destruct Hc as (p & Hp & Hc).
+  apply in_flat_map in Hc. destruct Hc as (q & Hq & Hc).
+  destruct (kids_child_comps m p q Hp Hq) as (_ & Hqa).
+  unfold all_comps in *. apply in_flat_map in Hqa. destruct Hqa as (t & Ht & Hqa). apply in_flat_map. exists t.
+  split; [exact Ht|]. eapply subcomps_trans; eauto.
+Qed.
+
+(* ------------------------------------------------------------------------------------------ code's demands => satisfiable *)
+
+Section CodeToSpec.
+  Variable fs : fsys.
+  Variable m0 : model.
+  Hypothesis Hsh : Shallow fs.
+
+  Lemma only_std_RU : forall cm cu, is_local cu -> only_std cu -> RU fs cm cu.
+  Proof.
+    intros cm [n refs|] Hl Ho; [|destruct Hl]. apply RU_local.
+    - intros r Hr Hs. rewrite (Ho r Hr) in Hs. discriminate.
+    - intros r cu Hr Hs. rewrite (Ho r Hr) in Hs. discriminate.
+  Qed.
+
+  Lemma FU_RU : forall o hist u, FU fs m0 o hist u -> forall cm, ~ is_local u -> RU fs cm u.
+  Proof.
+    intros o hist u HF. induction HF as [o hist n refs | o hist n sid url ref sm su Hfm Hcy Hfu HFsu IHsu Hex Hall IHall];
+      intros cm Hnl.
+    - exfalso. apply Hnl. exact I.
+    - apply RU_imp with (sm := sm) (su := su); auto.
+      destruct su as [n' refs'|n' sid' url' ref']; [|apply IHsu; intros []].
+      destruct (Hsh _ _ Hfm) as (S1 & _).
+      apply RU_local.
+      + intros r Hr Hs. apply Hex; assumption.
+      + intros r cu Hr Hs Ecu. destruct cu as [nc rc|nc sc uc rc].
+        * apply only_std_RU; [exact I|].
+          eapply (S1 (ULocal n' refs') r (ULocal nc rc)); eauto; try exact I;
+            try (eapply find_units_In; exact Hfu).
+        * eapply IHall; eauto.
+  Qed.
+
+  (* units used by a component, given what fetchComponent checked about them *)
+  Lemma used_RU : forall sm k c, fs_model fs k = Some sm -> In c (all_comps sm) ->
+    (forall un su, In un (cused c) -> is_std un = false -> find_units (m_units sm) un = Some su ->
+                   exists o hist, FU fs m0 o hist su) ->
+    forall un su, In un (cused c) -> is_std un = false -> find_units (m_units sm) un = Some su -> RU fs sm su.
+  Proof.
+    intros sm k c Hfm Hc HF un su Hun Hs Esu. destruct (Hsh _ _ Hfm) as (_ & S2 & _).
+    destruct su as [ns rs|ns ss us rs].
+    - apply only_std_RU; [exact I|]. eapply S2; eauto. exact I.
+    - destruct (HF _ _ Hun Hs Esu) as (o & hist & H). eapply FU_RU; eauto.
+  Qed.
+
+  Lemma child_used : forall sm k c, fs_model fs k = Some sm -> In c (child_comps sm) ->
+    (forall un, In un (cused c) -> is_std un = false -> find_units (m_units sm) un <> None) /\
+    (forall un su, In un (cused c) -> is_std un = false -> find_units (m_units sm) un = Some su -> RU fs sm su).
+  Proof.
+    intros sm k c Hfm Hc. destruct (Hsh _ _ Hfm) as (_ & _ & S3 & _). split.
+    - intros un Hun Hs. destruct (S3 c un Hc Hun Hs) as (su & E & _). congruence.
+    - intros un su Hun Hs E. destruct (S3 c un Hc Hun Hs) as (su' & E' & Hl & Ho).
+      assert (su' = su) by congruence. subst su'. apply only_std_RU; assumption.
+  Qed.
+
+  (* an encapsulated child without imports below it is satisfiable (S3 for its units, and so on downwards) *)
+  Lemma noimp_RC : forall sm k, fs_model fs k = Some sm ->
+    forall c, requires_imports c = false -> In c (child_comps sm) -> RC fs sm c.
+  Proof.
+    intros sm k Hfm c. induction c as [n i used kids IHk] using comp_ind'. intros Hr Hc.
+    destruct i as [p|]; [cbn in Hr; discriminate|].
+    destruct (child_used sm k _ Hfm Hc) as (Hex & Hall).
+    apply RC_local; auto.
+    intros kd Hkd. rewrite Forall_forall in IHk. apply IHk; auto.
+    - cbn [requires_imports] in Hr. clear -Hr Hkd. induction kids as [|x r IH]; [destruct Hkd|].
+      destruct (requires_imports x) eqn:Ex; [discriminate|]. destruct Hkd as [<-|Hkd]; auto.
+    - eapply child_comps_kids; eauto.
+  Qed.
+
+  (* what a successful fetchComponent says about a component [c] of a library model [cm]: its import is
+     satisfiable, and if [c] is an encapsulated child then all of it is *)
+  Lemma FC_RC : forall o hist c, FC fs m0 o hist c ->
+    forall cm k, fs_model fs k = Some cm -> In c (all_comps cm) ->
+                 RCimport fs c /\ (In c (child_comps cm) -> RC fs cm c).
+  Proof.
+    intros o hist c HF.
+    induction HF as [o hist c Hreq
+                    | o hist n used kids Hkids IHkids
+                    | o hist n sid url ref used kids sm sc Hfm Hcy Hfc HFsc IHsc HFk IHk Hex Hall];
+      intros cm k Hcm Hin.
+    - split.
+      + destruct c as [n [p|] u kd]; [cbn in Hreq; discriminate|exact I].
+      + intros Hch. eapply noimp_RC; eauto.
+    - split; [exact I|]. intros Hch.
+      destruct (child_used cm k _ Hcm Hch) as (Hex & Hall).
+      apply RC_local; auto.
+      intros kd Hkd. destruct (kids_child_comps cm _ kd Hin Hkd) as (Hkc & Hka).
+      apply (IHkids kd Hkd cm k Hcm Hka). exact Hkc.
+    - assert (Hsc_in : In sc (all_comps sm)) by (eapply find_comp_sub; exact Hfc).
+      assert (HRC : RC fs sm sc).
+      { assert (Hu_ex : forall un, In un (cused sc) -> is_std un = false -> find_units (m_units sm) un <> None)
+          by exact Hex.
+        assert (Hu_all : forall un su, In un (cused sc) -> is_std un = false ->
+                                       find_units (m_units sm) un = Some su -> RU fs sm su).
+        { eapply used_RU; eauto. }
+        assert (Hk_all : forall kd, In kd (ckids sc) -> RC fs sm kd).
+        { intros kd Hkd. destruct (kids_child_comps sm _ kd Hsc_in Hkd) as (Hkc & Hka).
+          apply (IHk kd Hkd sm _ Hfm Hka). exact Hkc. }
+        destruct sc as [n' [[[sid' url'] ref']|] used' kids'].
+        - destruct (IHsc sm _ Hfm Hsc_in) as (Himp & _). cbn [RCimport] in Himp.
+          destruct Himp as (sm' & sc' & H1 & H2 & H3). eapply RC_imp; eauto.
+        - apply RC_local; auto. }
+      split.
+      + cbn [RCimport]. exists sm, sc. auto.
+      + intros Hch. destruct (child_used cm k _ Hcm Hch) as (Hex' & Hall').
+        destruct (Hsh _ _ Hcm) as (_ & _ & _ & S4).
+        assert (Hnk : kids = []) by (apply (S4 _ Hch); cbn; discriminate).
+        subst kids. eapply RC_imp; eauto. intros kd [].
+  Qed.
+
+  (* Theorem B, first half: under Shallow, what the importer demands implies that every import is satisfiable *)
+  Lemma code_resolvable_resolvable : CodeResolvable fs m0 -> Resolvable fs m0.
+  Proof.
+    intros (Hu & Hc). split.
+    - intros u Hin. apply (FU_RU _ _ _ (Hu u Hin)). unfold imported_units in Hin. apply filter_In in Hin.
+      destruct u; [destruct Hin as [_ Habs]; discriminate|intros []].
+    - intros c Hin. specialize (Hc c Hin).
+      (* the import part of an imported component of the origin: same argument as in FC_RC, without a file *)
+      inversion Hc as [o hist c' Hreq
+                      | o hist n used kids Hkids
+                      | o hist n sid url ref used kids sm sc Hfm Hcy Hfc HFsc HFk Hex Hall]; subst.
+      + destruct c as [n [p|] u kd]; [cbn in Hreq; discriminate|exact I].
+      + exact I.
+      + assert (Hsc_in : In sc (all_comps sm)) by (eapply find_comp_sub; exact Hfc).
+        cbn [RCimport]. exists sm, sc. split; [exact Hfm|]. split; [exact Hfc|].
+        assert (Hu_all : forall un su, In un (cused sc) -> is_std un = false ->
+                                       find_units (m_units sm) un = Some su -> RU fs sm su).
+        { eapply used_RU; eauto. }
+        assert (Hk_all : forall kd, In kd (ckids sc) -> RC fs sm kd).
+        { intros kd Hkd. destruct (kids_child_comps sm _ kd Hsc_in Hkd) as (Hkc & Hka).
+          apply (FC_RC _ _ _ (HFk kd Hkd) sm _ Hfm Hka). exact Hkc. }
+        destruct sc as [n' [[[sid' url'] ref']|] used' kids'].
+        * destruct (FC_RC _ _ _ HFsc sm _ Hfm Hsc_in) as (Himp & _). cbn [RCimport] in Himp.
+          destruct Himp as (sm' & sc' & H1 & H2 & H3). eapply RC_imp; eauto.
+        * apply RC_local; auto.
+  Qed.
+End CodeToSpec.
+
+(* ------------------------------------------------------------------------------------------ satisfiable => code's demands *)
+
+Lemma mk_key_not_origin : forall u, mk_key u <> origin_ref.
+Proof. intros u H. unfold mk_key, dir_prefix, origin_ref in H. cbn in H. inversion H. Qed.
+
+Lemma existsb_false {A : Type} (f : A -> bool) (l : list A) : (forall a, In a l -> f a = false) -> existsb f l = false.
+Proof.
+  induction l as [|a r IH]; intros H; [reflexivity|]. cbn. rewrite (H a (or_introl eq_refl)). apply IH.
+  intros x Hx. apply H. right. exact Hx.
+Qed.
+
+Lemma imported_comps_of_imp : forall c x, In x (imported_comps_of c) -> cimp x <> None.
+Proof.
+  induction c as [n i u kids IHk] using comp_ind'. intros x Hx. cbn [imported_comps_of] in Hx.
+  apply in_app_or in Hx. destruct Hx as [Hx|Hx].
+  - destruct i; [|destruct Hx]. destruct Hx as [<-|[]]. cbn. discriminate.
+  - induction kids as [|k r IHr]; [destruct Hx|]. inversion IHk as [|k' r' Hk Hr]; subst.
+    apply in_app_or in Hx. destruct Hx as [Hx|Hx]; [apply Hk; exact Hx|apply IHr; assumption].
+Qed.
+
+Lemma imported_comps_imp : forall m x, In x (imported_comps m) -> cimp x <> None.
+Proof.
+  intros m x Hx. unfold imported_comps in Hx. apply in_flat_map in Hx. destruct Hx as (c & _ & Hx).
+  eapply imported_comps_of_imp. exact Hx.
+Qed.
+
+Section SpecToCode.
+  Variable fs : fsys.
+  Variable m0 : model.
+  Variable rank : string -> nat.
+  Hypothesis Hrank : forall k sm url, fs_model fs k = Some sm -> In url (import_urls sm) -> rank (mk_key url) < rank k.
+  Hypothesis Hnt : NoTwin fs m0.
+
+  (* the history holds files of strictly larger rank than the current one (or the origin model) *)
+  Definition below (o : owner) (hist : list epoch) : Prop :=
+    (forall e, In e hist -> e_srcm e = None \/ e_src e <> origin_ref) /\
+    match o with
+    | None => hist = []
+    | Some k => (exists url, k = mk_key url) /\ forall e, In e hist -> e_src e = origin_ref \/ rank k < rank (e_src e)
+    end.
+
+  Definition lower (o : owner) (url : string) : Prop := forall k, o = Some k -> rank (mk_key url) < rank k.
+
+  Lemma cycs_false : forall o hist url sm,
+    below o hist -> lower o url -> fs_model fs (mk_key url) = Some sm ->
+    cycs fs m0 hist (fetch_epoch o url) = false.
+  Proof.
+    intros o hist url sm (Hwf & Hb) Hlow Hfm. unfold cycs. apply existsb_false. intros e He.
+    cbn [fetch_epoch e_dst e_dstm]. rewrite Hfm.
+    destruct o as [k|]; [|subst hist; destruct He].
+    destruct Hb as (_ & Hb). specialize (Hlow k eq_refl).
+    apply orb_false_iff. split.
+    - apply String.eqb_neq. intros Heq. destruct (Hb e He) as [Ho|Hr].
+      + rewrite Ho in Heq. exact (mk_key_not_origin _ Heq).
+      + rewrite <- Heq in Hr. lia.
+    - destruct (String.eqb (e_src e) origin_ref) eqn:Eo; [|reflexivity]. cbn [andb].
+      apply String.eqb_eq in Eo. destruct (Hwf e He) as [Hn|Hn]; [|contradiction].
+      rewrite Hn. cbn [fcontent]. apply (Hnt _ _ Hfm).
+  Qed.
+
+  Lemma below_push : forall o hist url, below o hist -> lower o url ->
+    below (Some (mk_key url)) (hist ++ [fetch_epoch o url]).
+  Proof.
+    intros o hist url (Hwf & Hb) Hlow. split.
+    - intros e He. apply in_app_or in He. destruct He as [He|[<-|[]]]; [apply Hwf, He|].
+      cbn [fetch_epoch e_srcm e_src]. destruct o as [k|]; [|left; reflexivity].
+      right. destruct Hb as ((u & ->) & _). cbn [model_url]. apply mk_key_not_origin.
+    - split; [eexists; reflexivity|]. intros e He. apply in_app_or in He. destruct He as [He|[<-|[]]].
+      + destruct o as [k|]; [|subst hist; destruct He]. destruct Hb as (_ & Hb). specialize (Hlow k eq_refl).
+        destruct (Hb e He) as [Ho|Hr]; [left; exact Ho|right; lia].
+      + cbn [fetch_epoch e_src]. destruct o as [k|]; [|left; reflexivity]. right. cbn [model_url]. apply Hlow. reflexivity.
+  Qed.
+
+  Definition ctxU (o : owner) (hist : list epoch) (cm : model) (u : units) : Prop :=
+    fcontent fs m0 o = Some cm /\ In u (m_units cm) /\ below o hist.
+  Definition ctxC (o : owner) (hist : list epoch) (cm : model) (c : comp) : Prop :=
+    fcontent fs m0 o = Some cm /\ In c (all_comps cm) /\ below o hist.
+
+  Lemma lower_units : forall o hist cm n sid url ref, ctxU o hist cm (UImp n sid url ref) -> lower o url.
+  Proof.
+    intros o hist cm n sid url ref (Hc & Hin & _) k ->. cbn [fcontent] in Hc. eapply Hrank; [exact Hc|].
+    unfold import_urls. apply in_or_app. left. apply in_flat_map. eexists. split; [exact Hin|]. cbn. left. reflexivity.
+  Qed.
+
+  Lemma lower_comp : forall o hist cm n sid url ref used kids,
+    ctxC o hist cm (Comp n (Some (sid, url, ref)) used kids) -> lower o url.
+  Proof.
+    intros o hist cm n sid url ref used kids (Hc & Hin & _) k ->. cbn [fcontent] in Hc. eapply Hrank; [exact Hc|].
+    unfold import_urls. apply in_or_app. right. apply in_flat_map. eexists. split; [exact Hin|]. cbn. left. reflexivity.
+  Qed.
+
+  Lemma RU_FU : forall cm u, RU fs cm u ->
+    (forall o hist, ctxU o hist cm u -> FU fs m0 o hist u) /\
+    (forall r cu, In r (refs_of u) -> is_std r = false -> find_units (m_units cm) r = Some cu ->
+                  forall o hist, ctxU o hist cm cu -> FU fs m0 o hist cu).
+  Proof.
+    intros cm u HR.
+    induction HR as [cm n sid url ref sm su Hfm Hfu HRsu IHsu | cm n refs Hex Hall IHall].
+    - split; [|intros r cu []].
+      intros o hist Hctx. pose proof (lower_units _ _ _ _ _ _ _ Hctx) as Hlow.
+      destruct Hctx as (Hc & Hin & Hb). destruct IHsu as (IH1 & IH2).
+      assert (Hctx' : forall x, In x (m_units sm) ->
+                                ctxU (Some (mk_key url)) (hist ++ [fetch_epoch o url]) sm x).
+      { intros x Hx. split; [exact Hfm|]. split; [exact Hx|]. apply below_push; assumption. }
+      apply FU_imp with (sm := sm) (su := su); [exact Hfm| |exact Hfu| | |].
+      + eapply cycs_false; eauto.
+      + apply IH1. apply Hctx'. eapply find_units_In; eauto.
+      + inversion HRsu; subst; cbn [refs_of]; [intros r []|]. assumption.
+      + intros r cu Hr Hs E. eapply IH2; eauto. apply Hctx'. eapply find_units_In; eauto.
+    - split; [intros; apply FU_local|].
+      intros r cu Hr Hs E o hist Hctx. cbn [refs_of] in Hr. destruct (IHall r cu Hr Hs E) as (IH1 & _). auto.
+  Qed.
+
+  Lemma RC_FC : forall cm c, RC fs cm c ->
+    (forall o hist, ctxC o hist cm c -> FC fs m0 o hist c) /\
+    (forall k, In k (ckids c) -> forall o hist, ctxC o hist cm k -> FC fs m0 o hist k) /\
+    (forall un, In un (cused c) -> is_std un = false -> find_units (m_units cm) un <> None) /\
+    (forall un su, In un (cused c) -> is_std un = false -> find_units (m_units cm) un = Some su ->
+                   forall o hist, ctxU o hist cm su -> FU fs m0 o hist su).
+  Proof.
+    intros cm c HR.
+    induction HR as [cm n used kids Hex Hall Hkids IHkids
+                    | cm n sid url ref used kids sm sc Hfm Hfc HRsc IHsc Hex Hall Hkids IHkids].
+    - assert (P2 : forall k, In k kids -> forall o hist, ctxC o hist cm k -> FC fs m0 o hist k).
+      { intros k Hk. destruct (IHkids k Hk) as (IH1 & _). exact IH1. }
+      split; [|split; [exact P2|split; [exact Hex|]]].
+      + intros o hist (Hc & Hin & Hb). apply FC_local. intros k Hk. apply P2; [exact Hk|].
+        split; [exact Hc|]. split; [|exact Hb]. eapply kids_child_comps; eauto.
+      + intros un su Hun Hs E. apply (proj1 (RU_FU _ _ (Hall un su Hun Hs E))).
+    - assert (P2 : forall k, In k kids -> forall o hist, ctxC o hist cm k -> FC fs m0 o hist k).
+      { intros k Hk. destruct (IHkids k Hk) as (IH1 & _). exact IH1. }
+      split; [|split; [exact P2|split; [exact Hex|]]].
+      + intros o hist Hctx. pose proof (lower_comp _ _ _ _ _ _ _ _ _ Hctx) as Hlow.
+        destruct Hctx as (Hc & Hin & Hb). destruct IHsc as (IH1 & IH2 & IH3 & IH4).
+        assert (Hb' : below (Some (mk_key url)) (hist ++ [fetch_epoch o url])) by (apply below_push; assumption).
+        assert (Hsc_in : In sc (all_comps sm)) by (eapply find_comp_sub; exact Hfc).
+        apply FC_imp with (sm := sm) (sc := sc); [exact Hfm| |exact Hfc| | |exact IH3|].
+        * eapply cycs_false; eauto.
+        * apply IH1. split; [exact Hfm|]. split; assumption.
+        * intros k Hk. apply IH2; [exact Hk|]. split; [exact Hfm|]. split; [|exact Hb'].
+          eapply kids_child_comps; eauto.
+        * intros un su Hun Hs E. eapply IH4; eauto. split; [exact Hfm|]. split; [|exact Hb'].
+          eapply find_units_In; eauto.
+      + intros un su Hun Hs E. apply (proj1 (RU_FU _ _ (Hall un su Hun Hs E))).
+  Qed.
+
+  Lemma below_start : below None [].
+  Proof. split; [intros e []|reflexivity]. Qed.
+
+  (* Theorem B, second half: when files do not import in a circle and no file equals the origin model, every
+     satisfiable import passes the importer's demands (its cycle test never fires) *)
+  Lemma resolvable_code_resolvable : Resolvable fs m0 -> CodeResolvable fs m0.
+  Proof.
+    intros (Hu & Hc). split.
+    - intros u Hin. apply (proj1 (RU_FU _ _ (Hu u Hin))). split; [reflexivity|]. split; [|apply below_start].
+      unfold imported_units in Hin. apply filter_In in Hin. apply Hin.
+    - intros c Hin. specialize (Hc c Hin). pose proof (imported_comps_imp _ _ Hin) as Himp.
+      destruct c as [n [[[sid url] ref]|] used kids]; [|exfalso; apply Himp; reflexivity].
+      cbn [RCimport] in Hc. destruct Hc as (sm & sc & Hfm & Hfc & HRsc).
+      destruct (RC_FC _ _ HRsc) as (IH1 & IH2 & IH3 & IH4).
+      assert (Hlow : lower None url) by (intros k Habs; discriminate).
+      assert (Hb' : below (Some (mk_key url)) ([] ++ [fetch_epoch None url])) by (apply below_push; [apply below_start|exact Hlow]).
+      assert (Hsc_in : In sc (all_comps sm)) by (eapply find_comp_sub; exact Hfc).
+      apply FC_imp with (sm := sm) (sc := sc); [exact Hfm| |exact Hfc| | |exact IH3|].
+      + eapply cycs_false; eauto. apply below_start.
+      + apply IH1. split; [exact Hfm|]. split; assumption.
+      + intros k Hk. apply IH2; [exact Hk|]. split; [exact Hfm|]. split; [|exact Hb'].
+        eapply kids_child_comps; eauto.
+      + intros un su Hun Hs E. eapply IH4; eauto. split; [exact Hfm|]. split; [|exact Hb'].
+        eapply find_units_In; eauto.
+  Qed.
+End SpecToCode.
+
+(* ------------------------------------------------------------------------------------------ the main theorems *)
+
+Lemma cons_empty_lib : forall fs st, lib st = [] -> cons fs st.
+Proof. intros fs st E k m H. rewrite E in H. discriminate. Qed.
+
+(* exact form: on a library that caches the file system, resolveImports = true <-> the importer's demands *)
+Lemma resolve_true_iff_code : forall fs strict st m0 fuel,
+  NoErrs fs -> cons fs st -> fuel_bound fs st <= fuel ->
+  exists b st', resolve_imports fuel strict fs st m0 = Ok (b, st') /\ (b = true <-> CodeResolvable fs m0).
+Proof.
+  intros fs strict st m0 fuel Hne Hc Hfuel.
+  destruct (resolve_terminates strict fs st m0 fuel Hfuel) as (b & st' & E).
+  exists b, st'. split; [exact E|]. eapply resolve_code_spec; eauto.
+Qed.
+
+(* the property's form, with the hypotheses the code needs spelled out *)
+Lemma resolve_true_iff_partial : forall fs strict st m0 fuel,
+  NoErrs fs -> Shallow fs -> AcyclicFiles fs -> NoTwin fs m0 ->
+  cons fs st -> fuel_bound fs st <= fuel ->
+  exists b st', resolve_imports fuel strict fs st m0 = Ok (b, st') /\ (b = true <-> Resolvable fs m0).
+Proof.
+  intros fs strict st m0 fuel Hne Hsh (rank & Hrank) Hnt Hc Hfuel.
+  destruct (resolve_true_iff_code fs strict st m0 fuel Hne Hc Hfuel) as (b & st' & E & Hiff).
+  exists b, st'. split; [exact E|]. rewrite Hiff. split.
+  - apply code_resolvable_resolvable. exact Hsh.
+  - eapply resolvable_code_resolvable; eauto.
+Qed.
+
+(* removeAllModels (or a new Importer) gives a fresh resolution, whatever happened before *)
+Lemma resolve_after_clear : forall fuel strict fs st m0,
+  resolve_imports fuel strict fs (remove_all_models st) m0 = resolve_imports fuel strict fs empty_state m0.
+Proof. intros. reflexivity. Qed.
+
+Lemma fuel_bound_clear : forall fs st, fuel_bound fs (remove_all_models st) = fuel_bound fs empty_state.
+Proof. intros. reflexivity. Qed.
+
+(* A failure leaves the importer usable: once the file system is repaired (fs'), a resolution after
+   removeAllModels -- from ANY importer state st, whatever faults it has seen -- succeeds *)
+Lemma retry_after_repair : forall fs' strict st m0 fuel,
+  NoErrs fs' -> Shallow fs' -> AcyclicFiles fs' -> NoTwin fs' m0 -> Resolvable fs' m0 ->
+  fuel_bound fs' empty_state <= fuel ->
+  exists st', resolve_imports fuel strict fs' (remove_all_models st) m0 = Ok (true, st').
+Proof.
+  intros fs' strict st m0 fuel Hne Hsh Hac Hnt Hres Hfuel. rewrite resolve_after_clear.
+  destruct (resolve_true_iff_partial fs' strict empty_state m0 fuel Hne Hsh Hac Hnt
+              (cons_empty_lib fs' empty_state eq_refl) Hfuel) as (b & st' & E & Hiff).
+  exists st'. rewrite E. f_equal. f_equal. apply Hiff. exact Hres.
+Qed.
+
+(* resolveImports = true => no import of the origin was left without its model: every imported units and every
+   imported component of the origin model is linked to a library model (the first thing isResolved tests) *)
+
+(* ------------------------------------------------------------------------------------------ witnesses *)
+
+Definition mdl (n : string) (us : list units) (cs : list comp) : model := {| m_name := n; m_units := us; m_comps := cs |}.
+Definition run1 (fs : fsys) (st : state) (m0 : model) : res (bool * state) :=
+  resolve_imports (fuel_bound fs st) true fs st m0.
+Definition st_of (r : res (bool * state)) : state := match r with Ok (_, st) => st | _ => empty_state end.
+Definition ok_of (r : res (bool * state)) : option bool := match r with Ok (b, _) => Some b | _ => None end.
+
+(* K35: a parser error on the imported units fails the first resolution and is forgotten by the second *)
+Definition k35_m0 := mdl "m_f0" [UImp "u" 0 "f1" "u"] [].
+Definition k35_fs : fsys := [(mk_key "f1", Parsed [PEUnits "u"] (mdl "m_f1" [ULocal "u" []] []))].
+
+Lemma resolve_repeatable_refuted :
+  exists fs m0 st1 st2,
+    resolve_imports (fuel_bound fs empty_state) true fs empty_state m0 = Ok (false, st1) /\
+    resolve_imports (fuel_bound fs st1) true fs st1 m0 = Ok (true, st2) /\ issues_rev st2 = [].
+Proof.
+  exists k35_fs, k35_m0, (st_of (run1 k35_fs empty_state k35_m0)),
+         (st_of (run1 k35_fs (st_of (run1 k35_fs empty_state k35_m0)) k35_m0)).
+  repeat split; vm_compute; reflexivity.
+Qed.
+
+(* row 32: an entity missing from a file; the file is repaired; the same importer still fails (stale library
+   entry), removeAllModels gives a fresh and successful resolution *)
+Definition r32_m0 := mdl "m_f0" [UImp "u" 0 "f1" "u"] [].
+Definition r32_bad : fsys := [(mk_key "f1", Parsed [] (mdl "m_f1" [] []))].
+Definition r32_good : fsys := [(mk_key "f1", Parsed [] (mdl "m_f1" [ULocal "u" []] []))].
+
+Lemma r32_resolvable : Resolvable r32_good r32_m0.
+Proof.
+  split.
+  - intros u [<-|[]]. eapply RU_imp with (sm := mdl "m_f1" [ULocal "u" []] []) (su := ULocal "u" []);
+      [reflexivity|reflexivity|]. apply RU_local; [intros r []|intros r cu []].
+  - intros c [].
+Qed.
+
+Lemma retry_same_importer_refuted :
+  exists bad good m0 st1 st2 st3,
+    Resolvable good m0 /\
+    resolve_imports (fuel_bound bad empty_state) true bad empty_state m0 = Ok (false, st1) /\
+    resolve_imports (fuel_bound good st1) true good st1 m0 = Ok (false, st2) /\
+    resolve_imports (fuel_bound good empty_state) true good (remove_all_models st2) m0 = Ok (true, st3).
+Proof.
+  exists r32_bad, r32_good, r32_m0, (st_of (run1 r32_bad empty_state r32_m0)),
+         (st_of (run1 r32_good (st_of (run1 r32_bad empty_state r32_m0)) r32_m0)),
+         (st_of (run1 r32_good empty_state r32_m0)).
+  split; [exact r32_resolvable|]. repeat split; vm_compute; reflexivity.
+Qed.
+
+(* finding C07-unexamined-dependencies: an import behind two local units is never fetched: resolveImports = true
+   although the file it needs does not exist; and when the file exists, hasUnresolvedImports() stays true *)
+Definition fa_m0 := mdl "m_f0" [UImp "u" 0 "f1" "u"] [].
+Definition fa_f1 := mdl "m_f1" [ULocal "u" ["v"]; ULocal "v" ["w"]; UImp "w" 0 "f2" "w"] [].
+Definition fa_fs_missing : fsys := [(mk_key "f1", Parsed [] fa_f1)].
+Definition fa_fs_full : fsys := [(mk_key "f1", Parsed [] fa_f1); (mk_key "f2", Parsed [] (mdl "m_f2" [ULocal "w" []] []))].
+
+Lemma fa_not_resolvable : ~ Resolvable fa_fs_missing fa_m0.
+Proof.
+  intros (Hu & _). specialize (Hu _ (or_introl eq_refl)).
+  inversion Hu as [cm n sid url ref sm su Hfm Hfu HR|]; subst. vm_compute in Hfm. inversion Hfm; subst.
+  vm_compute in Hfu. inversion Hfu; subst.
+  inversion HR as [|cm n refs Hex Hall]; subst.
+  assert (Hv : RU fa_fs_missing fa_f1 (ULocal "v" ["w"])).
+  { apply (Hall "v"); [left; reflexivity|reflexivity|reflexivity]. }
+  inversion Hv as [|cm n refs Hex' Hall']; subst.
+  assert (Hw : RU fa_fs_missing fa_f1 (UImp "w" 0 "f2" "w")).
+  { apply (Hall' "w"); [left; reflexivity|reflexivity|reflexivity]. }
+  inversion Hw as [cm n sid url ref sm su Hfm' Hfu' HR'|]; subst. vm_compute in Hfm'. discriminate.
+Qed.
+
+Lemma fa_resolvable_full : Resolvable fa_fs_full fa_m0.
+Proof.
+  assert (Hw : RU fa_fs_full fa_f1 (UImp "w" 0 "f2" "w")).
+  { eapply RU_imp with (sm := mdl "m_f2" [ULocal "w" []] []) (su := ULocal "w" []); [reflexivity|reflexivity|].
+    apply RU_local; [intros r []|intros r cu []]. }
+  assert (Hv : RU fa_fs_full fa_f1 (ULocal "v" ["w"])).
+  { apply RU_local.
+    - intros r [<-|[]] _. vm_compute. discriminate.
+    - intros r cu [<-|[]] _ E. vm_compute in E. inversion E; subst. exact Hw. }
+  split.
+  - intros u [<-|[]]. eapply RU_imp with (sm := fa_f1) (su := ULocal "u" ["v"]); [reflexivity|reflexivity|].
+    apply RU_local.
+    + intros r [<-|[]] _. vm_compute. discriminate.
+    + intros r cu [<-|[]] _ E. vm_compute in E. inversion E; subst. exact Hv.
+  - intros c [].
+Qed.
+
+Lemma resolve_true_iff_refuted :
+  exists fs m0 st', NoErrs fs /\ resolve_imports (fuel_bound fs empty_state) true fs empty_state m0 = Ok (true, st') /\
+                    issues_rev st' = [] /\ ~ Resolvable fs m0.
+Proof.
+  exists fa_fs_missing, fa_m0, (st_of (run1 fa_fs_missing empty_state fa_m0)).
+  split.
+  { intros k errs m E. cbn [fa_fs_missing fs_get] in E. destruct (String.eqb (mk_key "f1") k); [|discriminate].
+    inversion E. reflexivity. }
+  split; [vm_compute; reflexivity|]. split; [vm_compute; reflexivity|]. exact fa_not_resolvable.
+Qed.
+
+Lemma resolve_true_post_refuted_unexamined :
+  exists fs m0 st', Resolvable fs m0 /\
+    resolve_imports (fuel_bound fs empty_state) true fs empty_state m0 = Ok (true, st') /\
+    has_unresolved_imports no_fixes (scan_fuel fs st' m0) st' m0 = Ok true.
+Proof.
+  exists fa_fs_full, fa_m0, (st_of (run1 fa_fs_full empty_state fa_m0)).
+  split; [exact fa_resolvable_full|]. split; vm_compute; reflexivity.
+Qed.
+
+(* finding C07-units-history-not-popped: a diamond below a local units; every hypothesis of the iff theorem
+   holds, resolveImports = true, all imports are linked, and still hasUnresolvedImports() = true; with the
+   history popped (fx_pop) it is false *)
+Definition fb_m0 := mdl "m_f0" [UImp "a" 0 "f2" "w"; UImp "b" 1 "f1" "x"; ULocal "u" ["a"; "b"]] [].
+Definition fb_fs : fsys :=
+  [(mk_key "f1", Parsed [] (mdl "m_f1" [UImp "x" 0 "f2" "w"] []));
+   (mk_key "f2", Parsed [] (mdl "m_f2" [UImp "w" 0 "f3" "z"] []));
+   (mk_key "f3", Parsed [] (mdl "m_f3" [ULocal "z" []] []))].
+
+Lemma fb_resolvable : Resolvable fb_fs fb_m0.
+Proof.
+  assert (Hz : forall cm, RU fb_fs cm (UImp "w" 0 "f3" "z")).
+  { intros cm. eapply RU_imp with (sm := mdl "m_f3" [ULocal "z" []] []) (su := ULocal "z" []); [reflexivity|reflexivity|].
+    apply RU_local; [intros r []|intros r cu []]. }
+  assert (Hw : forall cm n sid, RU fb_fs cm (UImp n sid "f2" "w")).
+  { intros cm n sid. eapply RU_imp with (sm := mdl "m_f2" [UImp "w" 0 "f3" "z"] []) (su := UImp "w" 0 "f3" "z");
+      [reflexivity|reflexivity|apply Hz]. }
+  split.
+  - intros u [<-|[<-|[]]]; [apply Hw|].
+    eapply RU_imp with (sm := mdl "m_f1" [UImp "x" 0 "f2" "w"] []) (su := UImp "x" 0 "f2" "w"); [reflexivity|reflexivity|apply Hw].
+  - intros c [].
+Qed.
+
+Lemma resolve_true_post_refuted :
+  exists fs m0 st', Resolvable fs m0 /\
+    resolve_imports (fuel_bound fs empty_state) true fs empty_state m0 = Ok (true, st') /\
+    has_unresolved_imports no_fixes (scan_fuel fs st' m0) st' m0 = Ok true /\
+    has_unresolved_imports {| fx_pop := true; fx_nullref := false |} (scan_fuel fs st' m0) st' m0 = Ok false.
+Proof.
+  exists fb_fs, fb_m0, (st_of (run1 fb_fs empty_state fb_m0)).
+  split; [exact fb_resolvable|]. repeat split; vm_compute; reflexivity.
+Qed.
+
+(* finding C07-null-deref-dangling-units-ref: no import at all, and hasUnresolvedImports dereferences null *)
+Definition fc_m0 := mdl "m" [ULocal "u" ["nothere"]] [Comp "c" None ["u"] []].
+
+Lemma unresolved_test_crash_refuted :
+  exists m0 st', resolve_imports (fuel_bound [] empty_state) true [] empty_state m0 = Ok (true, st') /\
+                 has_unresolved_imports no_fixes (scan_fuel [] st' m0) st' m0 = Crash /\
+                 flatten_precheck no_fixes (scan_fuel [] st' m0) st' m0 = Crash /\
+                 has_unresolved_imports {| fx_pop := false; fx_nullref := true |} (scan_fuel [] st' m0) st' m0 = Ok false.
+Proof.
+  exists fc_m0, (st_of (run1 [] empty_state fc_m0)). repeat split; vm_compute; reflexivity.
+Qed.
+
+(* K3: cyclic LOCAL units in an imported file: resolveImports = true, and the pre-flatten scan
+   (checkUnitsForCycles) recurses for ever: out of fuel for EVERY fuel *)
+Definition k3_m0 := mdl "m_f0" [UImp "u" 0 "f1" "u"] [].
+Definition k3_f1 := mdl "m_f1" [ULocal "u" ["u"]] [].
+Definition k3_fs : fsys := [(mk_key "f1", Parsed [] k3_f1)].
+Definition k3_st : state := st_of (run1 k3_fs empty_state k3_m0).
+
+Lemma k3_loop : forall fuel hs, check_units_for_cycles fuel k3_m0 (Some (mk_key "f1")) k3_f1 hs (ULocal "u" ["u"]) = OutOfFuel.
+Proof.
+  induction fuel as [|f IH]; intros hs; [reflexivity|].
+  cbn [check_units_for_cycles]. destruct hs as [hist st].
+  cbn [none_found]. cbv beta.
+  change (find_units (m_units k3_f1) "u") with (Some (ULocal "u" ["u"])).
+  cbv iota. rewrite IH. reflexivity.
+Qed.
+
+Lemma flatten_precheck_cyclic_units_refuted :
+  exists fs m0 st', resolve_imports (fuel_bound fs empty_state) true fs empty_state m0 = Ok (true, st') /\
+                    issues_rev st' = [] /\
+                    forall fuel, flatten_precheck no_fixes fuel st' m0 = OutOfFuel.
+Proof.
+  exists k3_fs, k3_m0, k3_st. split; [vm_compute; reflexivity|]. split; [vm_compute; reflexivity|].
+  intros fuel. unfold flatten_precheck, has_import_issues.
+  change (imported_units k3_m0) with [UImp "u" 0 "f1" "u"]. cbn [none_found].
+  destruct fuel as [|f]; [reflexivity|].
+  cbn [check_units_for_cycles].
+  change (check_cycle (clear_issues k3_st) k3_m0 [] (scan_epoch (clear_issues k3_st) None 0 "f1")) with false.
+  cbv iota.
+  change (linked_model (clear_issues k3_st) None 0 "f1") with (Some k3_f1).
+  cbv iota.
+  change (find_units (m_units k3_f1) "u") with (Some (ULocal "u" ["u"])).
+  cbv iota. rewrite k3_loop. reflexivity.
+Qed.
+
+(* ------------------------------------------------------------------------------------------ non-vacuity *)
+
+Definition ex_m1 := mdl "m_f1" [ULocal "u" []] [Comp "c" None ["u"] []].
+Definition ex_m0 := mdl "m_f0" [UImp "u" 0 "f1" "u"] [Comp "c" (Some (1, "f1", "c")) [] []].
+Definition ex_fs : fsys := [(mk_key "f1", Parsed [] ex_m1)].
+
+Lemma ex_fs_model : forall k sm, fs_model ex_fs k = Some sm -> sm = ex_m1.
+Proof.
+  intros k sm E. unfold fs_model, ex_fs in E. cbn [fs_get] in E.
+  destruct (String.eqb (mk_key "f1") k); [inversion E; reflexivity|discriminate].
+Qed.
+
+Lemma nonvacuous :
+  NoErrs ex_fs /\ Shallow ex_fs /\ AcyclicFiles ex_fs /\ NoTwin ex_fs ex_m0 /\ Resolvable ex_fs ex_m0 /\
+  exists st', resolve_imports (fuel_bound ex_fs empty_state) true ex_fs empty_state ex_m0 = Ok (true, st').
+Proof.
+  split.
+  { intros k errs m E. unfold ex_fs in E. cbn [fs_get] in E. destruct (String.eqb (mk_key "f1") k); [|discriminate].
+    inversion E. reflexivity. }
+  split.
+  { intros k sm E. rewrite (ex_fs_model _ _ E). repeat split.
+    - intros u r cu [<-|[]] _ [].
+    - intros c un su [<-|[]] [<-|[]] _ E' _ r Hr. vm_compute in E'. inversion E'; subst. destruct Hr.
+    - intros c un [].
+    - intros c []. }
+  split.
+  { exists (fun _ => 0). intros k sm url E Hin. rewrite (ex_fs_model _ _ E) in Hin. destruct Hin. }
+  split.
+  { intros k sm E. rewrite (ex_fs_model _ _ E). reflexivity. }
+  split.
+  { split.
+    - intros u [<-|[]]. eapply RU_imp with (sm := ex_m1) (su := ULocal "u" []); [reflexivity|reflexivity|].
+      apply RU_local; [intros r []|intros r cu []].
+    - intros c [<-|[]]. cbn [RCimport]. exists ex_m1, (Comp "c" None ["u"] []).
+      split; [reflexivity|]. split; [reflexivity|]. apply RC_local.
+      + intros un [<-|[]] _. vm_compute. discriminate.
+      + intros un su [<-|[]] _ E. vm_compute in E. inversion E; subst. apply RU_local; [intros r []|intros r cu []].
+      + intros k []. }
+  eexists. vm_compute. reflexivity.
+Qed.
